@@ -51,8 +51,10 @@ func (l *linker) value(v *ast.Value, want *ast.Type, where string) string {
 		return ""
 	}
 	l.links++
-	if v.ExpectedType == nil || typeStr(v.ExpectedType) != typeStr(want) {
-		return fmt.Sprintf("%s: value %s has ExpectedType %s, declared type at this position is %s", where, v.String(), typeStr(v.ExpectedType), typeStr(want))
+	// (the declared type is read from a snapshot taken when the schema was loaded: validation must
+	// not have changed what the schema says, and if it did the links are wrong, not "consistent")
+	if v.ExpectedType == nil || typeStr(v.ExpectedType) != declaredType(want) {
+		return fmt.Sprintf("%s: value %s has ExpectedType %s, declared type at this position is %s", where, v.String(), typeStr(v.ExpectedType), declaredType(want))
 	}
 	wantDef := l.s.Types[want.Name()]
 	if v.Definition != wantDef || wantDef == nil {
